@@ -533,7 +533,7 @@ def oracle(case, out):
         if ref is not None and not must and full:
             return ('depth-over-bound-accepted', 'RFC document nested deeper than 512 accepted')
         return None
-    if op == 'w':
+    if op in ('w', 'wd'):
         try:
             t = parse_tree(c[1])
         except Exception as e:
@@ -549,7 +549,9 @@ def oracle(case, out):
         st = sort_tree(t)
         deep = tree_depth(t) > DEPTH_BOUND
         cls = ('json-write-illformed-utf8-string' if ill else 'json-write-number-rounds-to-infinity' if ovf else None)
-        texts = {'C': unhex(f['C']), 'R': unhex(f['R'])}
+        texts = {'C': unhex(f['C'])}
+        if op == 'w':
+            texts['R'] = unhex(f['R'])
         if not ill:
             for lay, txt in texts.items():
                 pr = py_rfc(txt) if not ovf else None
@@ -561,7 +563,7 @@ def oracle(case, out):
                 exp = map_nums(st, lambda b: bits_of(float(p16(dbl(b)))))
                 if pr != exp:
                     return ('written-text-denotes-other-value', 'independent reader gets a different tree from save(%s)' % lay)
-        for fld in ('rc', 'rr'):
+        for fld in (('rc', 'rr') if op == 'w' else ('rc',)):
             r = f.get(fld)
             if r == 'F':
                 if cls:
@@ -998,7 +1000,9 @@ def gen_cases(ctx):
         cases.append(W(rnd_tree(rng, rng.choice([1, 2, 3, 4, 5]), special=0.0)))
     for _ in range(ctx.scale(150, 3000)):
         cases.append(W(rnd_tree(rng, rng.choice([1, 2, 3]), special=0.15)))
-    for d in sorted(set([1, 2, 3, 100, 400, 510, 511, 512, 513, 514, 600] + [rng.randrange(4, 600) for _ in range(ctx.scale(3, 40))])):
+    # deep trees: readable layout (quadratic text) up to depth 120, compact only (op wd) beyond
+    WD = lambda t: 'wd ' + fmt_tree(t)
+    for d in sorted(set([1, 2, 3, 50, 100, 120, 400, 510, 511, 512, 513, 514, 600] + [rng.randrange(4, 600) for _ in range(ctx.scale(3, 40))])):
         t = ('D', bits_of(1.5))
         t2 = ('S', b'leaf')
         t3 = []
@@ -1006,10 +1010,11 @@ def gen_cases(ctx):
             t = [t]
             t2 = ('O', [(b'k', t2)])
             t3 = [t3] if i else []
-        cases.append(W(t))
-        cases.append(W(t2))
+        Wx = W if d <= 120 else WD
+        cases.append(Wx(t))
+        cases.append(Wx(t2))
         if d >= 1:
-            cases.append(W(t3))
+            cases.append(Wx(t3))
     cases.append(W([('S', rnd_utf8(rng, 30)) for _ in range(1500)]))
     cases.append(W(('O', [(b'key%05d' % i, ('D', rnd_finite_bits(rng))) for i in range(1500)])))
     # ---- typed extraction ----------------------------------------------------------------------------
@@ -1066,7 +1071,7 @@ def classify(case, out):
             doc = unhex(c[2])
             res = 'accepted' if py_rfc(doc) is not None else 'accepted-beyond-rfc'
         return 'p:%s:%s' % (tag, res)
-    if c[0] == 'w':
+    if c[0] in ('w', 'wd'):
         if len(o) > 1 and o[1] == 'throw':
             return 'w:throw'
         m = re.search(r' rc=(\S)', out)
@@ -1107,7 +1112,7 @@ def run(ctx):
     else:
         cases = vlib.corpus_cases('C11') + gen_cases(ctx)
     ctx.coverage['rule'] = (
-        'cases: p <full> <hex document> | w <tree built through the API> | g <bits of a double> | q <hex string>. Exhaustive: every document of 1 and 2 bytes, '
+        'cases: p <full> <hex document> | w <tree built through the API> | wd <deep tree, compact layout only> | g <bits of a double> | q <hex string>. Exhaustive: every document of 1 and 2 bytes, '
         'every 3-byte document over a 42-byte JSON alphabet, every byte raw and escaped inside a string, every \\uXXXX (thorough; quick: all boundaries + 3000 random), '
         'surrogate pair boundary grid, table 3-7 boundary grid of raw UTF-8, nesting 0..11 and 505..520 in nine shapes, every 1-byte string through to_json. '
         'Random (seeded): RFC 8259 grammar documents with all escape forms and numbers across the double range, number lexemes, single-byte mutations of 18 small '
